@@ -188,10 +188,12 @@ func scenFaults(rep *Report, tier string, seed int64) {
 	// blocks of interest
 	// (the blocks right after the PIP-10 activation execute conversions priced with the rolling
 	// averages: the in-memory cache is then a consensus input a failed attempt must not disturb)
-	targets := []uint32{s.Acts.DevRewards, s.Acts.V202, s.Acts.PIP10 + 1, s.Acts.PIP10 + 2}
+	// (the block after the bank-table activation and the last bank-era block execute the PEG
+	// requests pending across those boundaries: the bank row is read and written there)
+	targets := []uint32{s.Acts.DevRewards, s.Acts.V202, s.Acts.PIP10 + 1, s.Acts.PIP10 + 2, s.Acts.V4 + 1, s.Acts.V20 - 1}
 	pool := []uint32{}
 	for h := uint32(5); h <= tip-2; h++ {
-		if rich(h) && h != s.Acts.DevRewards && h != s.Acts.V202 && h != s.Acts.PIP10+1 && h != s.Acts.PIP10+2 {
+		if rich(h) && h != s.Acts.DevRewards && h != s.Acts.V202 && h != s.Acts.PIP10+1 && h != s.Acts.PIP10+2 && h != s.Acts.V4+1 && h != s.Acts.V20-1 {
 			pool = append(pool, h)
 		}
 	}
@@ -252,7 +254,22 @@ func scenFaults(rep *Report, tier string, seed int64) {
 		} else if tier == "thorough" && nst > 240 {
 			step = nst / 240 // bounded: about ten minutes for the whole tier
 		}
+		// every distinct call path is hit at least once (its first statement), whatever the stride
+		pick := map[int]bool{}
+		seenPath := map[string]bool{}
+		for n := 1; n <= nst; n++ {
+			if pth := stmts[n-1].Path + "|" + stmts[n-1].Kind; !seenPath[pth] {
+				seenPath[pth] = true
+				pick[n] = true
+			}
+		}
 		for n := 1; n <= nst; n += step {
+			pick[n] = true
+		}
+		for n := 1; n <= nst; n++ {
+			if !pick[n] {
+				continue
+			}
 			dump, msg, _, err := runFromSnapshot(ref, dir, h, upto, "", n)
 			if err != nil {
 				rep.Note("infrastructure: %v", err)
